@@ -272,6 +272,7 @@ func (sc *collection) doBuild(ctx context.Context) (Provider, error) {
 		voidReturnScopedDescriptors: make([]*Descriptor, 0, voidCount),
 		disposables:                 make([]Disposable, 0, 4),
 		scopes:                      make(map[*scope]struct{}, 4),
+		closeDone:                   make(chan struct{}),
 	}
 
 	for _, descriptor := range allDescriptors {
